@@ -76,3 +76,41 @@ def rule_gate_sets(ctx, cfg='prod-all', group='bbs', only=None):
                  'every comparison success depends on tests a combination of inputs that was tested before (no new kind of acceptance condition)',
                  body.span, fact={'sets_now': len(now), 'tabled': len(tab), 'new': sorted(new)[:6]}, expected='tabled sets (or unions of them)')
     yield Ob('RF-W', 'crate#acceptance-conditions-%s' % group, n >= 1, 'entry points examined', '', fact=n, expected='>= 1', nontrivial=False)
+
+
+# ------------------------------------------------------------------ RF-X: causes of failure
+ERR_TABLE_FILE = os.path.join(os.path.dirname(os.path.abspath(__file__)), 'error_origins.json')
+
+
+def error_origins(ctx, cfg, path):
+    """variants of the crate's error type that are constructed in a function reachable from `path`"""
+    from census import reachable_fns
+    prog, eng = ctx.prog(cfg), ctx.eng(cfg)
+    reach, _ = reachable_fns(eng, [path])
+    out = set()
+    for fn in reach:
+        for bi, s in prog.bodies[fn].stmts():
+            if s['k'] == 'assign' and s['rv']['k'] == 'agg' and s['rv'].get('name') == 'errors::Error':
+                out.add(s['rv']['variant'])
+    return out
+
+
+def rule_error_origins(ctx, cfg='prod-all', only=None):
+    """the kinds of failure an entry point can originate are the tabled ones: a new error variant constructed somewhere below an entry point is
+    a new cause of refusal (an infallible helper made fallible, a new check) that positive fixtures do not exercise."""
+    prog = ctx.prog(cfg)
+    with open(ERR_TABLE_FILE) as f:
+        table = json.load(f)
+    n = 0
+    for e in ENTRIES['bbs']:
+        if only and not any(e.endswith(o) for o in only):
+            continue
+        body = resolve_fn(prog, e)
+        if body.path not in table:
+            raise AnchorMissing('error origins of %s are not tabled' % body.path)
+        now = error_origins(ctx, cfg, body.path)
+        new = sorted(now - set(table[body.path]))
+        n += 1
+        yield Ob('RF-X', '%s#failure-causes' % body.path, not new, 'no new kind of error originates below this entry point', body.span,
+                 fact={'now': sorted(now), 'new': new}, expected='tabled variants')
+    yield Ob('RF-X', 'crate#failure-causes', n >= 1, 'entry points examined', '', fact=n, expected='>= 1', nontrivial=False)
